@@ -14,7 +14,7 @@ import (
 func C12(c *Ctx) {
 	r := c.R
 	r.Technique = "typestate abstract interpretation of the three terminal matchers (one failAt per outcome, polarity, position, label) and of the inversion parity in all 16 variants; AST/ordering rules on failAt and on the message synthesis in parse()"
-	r.Explanation = "Decides: (a) every path of parseAnyMatcher / parseLitMatcher / parseCharClassMatcher reports its outcome to failAt exactly once, with fail=true polarity on success and fail=false on failure (the flag is compared with the inversion state), at the position of the entry savepoint and with the node's own label; no other function reports; (b) the inversion flag is toggled only in parseNotExpr, exactly around the operand evaluation, and is back to its entry parity on every return of every evaluator; (c) the synthetic 'no match found' error is added only when the parse failed and no error was recorded, at maxFailPos, from the de-duplicated expected list sorted before use with EOF appended last; (d) failAt keeps the farthest offset: earlier offsets are ignored, a later one replaces the position and truncates the list, the ! prefix is added iff inverted. Not decided: the global induction that the reported offset is the maximum over a whole backtracking run; memo-hit paths (failAt bookkeeping is skipped on hits)."
+	r.Explanation = "Decides: (a) every path of parseAnyMatcher / parseLitMatcher / parseCharClassMatcher reports its outcome to failAt exactly once, with fail=true polarity on success and fail=false on failure (the flag is compared with the inversion state), at the position of the entry savepoint and with the node's own label; no other function reports; (b) the inversion flag is toggled only in parseNotExpr, exactly around the operand evaluation, and is back to its entry parity on every return of every evaluator; (c) the synthetic 'no match found' error is added only when the parse failed and no error was recorded, at maxFailPos, from the de-duplicated expected list sorted before use with EOF appended last; (d) failAt keeps the farthest offset: earlier offsets are ignored, a later one replaces the position and truncates the list, the ! prefix is added iff inverted. (e) a result answered from the memo table must come with the failure reports of the remembered evaluation (C12-f: it does not, in parseExprWrap and parseRuleMemoize under Memoize(true) and in the leader routine of a left-recursive rule with default options - finding F20); (f) the reported position is one the parser computed (C12-g: the initial value is a literal that is wrong for an input starting with a line break - finding F21). Not decided: the global induction that the reported offset is the maximum over a whole backtracking run."
 	r.Assumptions = []string{"sort.Strings sorts", "terminal matchers are the only source of expected labels by construction of the grammar literal"}
 	r.Rule("C12-a", "each abstract path of a terminal matcher contains exactly one failAt; its first argument is true iff the path returns ok=true; its position is the entry savepoint's; its label is the node's own label field (\".\" for the any matcher)")
 	r.Rule("C12-a2", "failAt is called only from the three terminal matchers")
@@ -22,6 +22,8 @@ func C12(c *Ctx) {
 	r.Rule("C12-c", "the 'no match found' error is added under !ok && len(*p.errs)==0 at p.maxFailPos; the expected list comes from a map filled from p.maxFailExpected (dedup), \"!.\" is replaced by a trailing \"EOF\", and sort.Strings precedes listJoin/addErrAt")
 	r.Rule("C12-d", "failAt acts only when fail == p.maxFailInvertExpected; returns on an earlier offset; on a later offset replaces maxFailPos and truncates maxFailExpected; prefixes ! iff inverted; appends the label; nobody else writes maxFailPos/maxFailExpected")
 
+	r.Rule("C12-f", "what a remembered evaluation reported to failAt is reported again when its result is answered from the memo table: a path of parseExprWrap, parseRuleMemoize or parseRuleRecursiveLeader that returns a looked-up tuple without evaluating reaches no failAt, so the failures of the terminals inside are missing from the farthest-failure record whenever the first evaluation ran under the other polarity of a ! predicate (or was the only one to reach that offset)")
+	r.Rule("C12-g", "the position reported for the farthest failure is one the parser computed: maxFailPos is assigned from the position handed to failAt only, and its initial value is the position of the first rune as read() computes it - a literal line 1, column 1 is wrong for an input that starts with a line break (read() puts that rune at line 2, column 0), and failAt never replaces it for a failure at offset 0")
 	r.Rule("C12-e", "the label a terminal reports is the terminal as written: builder.writeLitMatcher / writeCharClassMatcher emit `want:` from the node's own text (the quoted literal value as written plus the i suffix; the class text) - see C01-d for the pairing table")
 	builderPairingN(c, "C12-e", "writeLitMatcher")
 	builderPairingN(c, "C12-e", "writeCharClassMatcher")
@@ -32,6 +34,8 @@ func C12(c *Ctx) {
 		c12b(c, a)
 		c12c(c, a.V)
 		c12d(c, a.V)
+		c12MemoHits(c, a.V)
+		c12InitialPosition(c, a.V)
 	}
 	r.MinRule("C12-a", 3)
 }
@@ -497,4 +501,59 @@ func expectedListBySlices(before bpath, list string) (probs []string, isIdiom bo
 		probs = append(probs, "EOF is reported although the end-of-input marker was not among the failures")
 	}
 	return
+}
+
+// c12MemoHits (C12-f).
+func c12MemoHits(c *Ctx, v *variants.Variant) {
+	r := c.R
+	for _, fn := range []string{"parseExprWrap", "parseRuleMemoize", "parseRuleRecursiveLeader"} {
+		fd := v.Func("parser", fn)
+		if fd == nil {
+			continue // not part of this variant
+		}
+		nHit, nSilent := 0, 0
+		for _, p := range c.vnorm(v).without("read", "restore", "failAt", "sliceFrom", "in", "out", "addErr", "addErrAt", "getMemoized", "setMemoized", "parseRule", "parseExpr", "cloneState", "restoreState", "printIndent").normPaths(fd) {
+			iGet := p.evIndex("call", 0, func(s string) bool { return strings.Contains(s, ".getMemoized(") })
+			if iGet < 0 || lastReturn(p) == "" {
+				continue
+			}
+			evaluates := p.evIndex("call", iGet, func(s string) bool { return strings.Contains(s, ".parseRule(") || strings.Contains(s, ".parseExpr(") }) >= 0
+			if evaluates {
+				continue
+			}
+			nHit++
+			replays := p.evIndex("call", iGet, func(s string) bool { return strings.Contains(s, ".failAt(") || strings.Contains(s, "Fail") }) >= 0
+			if !replays {
+				nSilent++
+			}
+		}
+		if nHit == 0 {
+			continue // no path answers from the table (optimized variants)
+		}
+		r.Check(nSilent == 0, "C12-f", "T."+fn+":memo-hit-reports-failures", v.Name, v.Where(fd.Pos()), fmt.Sprintf("%d paths answer from the table, each reporting the remembered failures", nHit),
+			fmt.Sprintf("%d of %d paths that answer from the memo table reach no failAt: `S <- !(T \"x\") T \"y\"; T <- \"a\" \"b\"` on `ac` reports `1:2 (1): expected \"b\"` by default and `1:1 (0): expected !\"a\"` with Memoize(true)", nSilent, nHit))
+	}
+}
+
+// c12InitialPosition (C12-g).
+func c12InitialPosition(c *Ctx, v *variants.Variant) {
+	r := c.R
+	np := v.Func("", "newParser")
+	if np == nil {
+		r.Fatal("variant %s: newParser missing", v.Name)
+		return
+	}
+	literal := ""
+	ast.Inspect(np.Body, func(n ast.Node) bool {
+		if kv, ok := n.(*ast.KeyValueExpr); ok && nospace(kv.Key) == "maxFailPos" {
+			if _, isLit := kv.Value.(*ast.CompositeLit); isLit {
+				literal = nospace(kv.Value)
+			}
+		}
+		return true
+	})
+	// does failAt replace the position for a failure at the same offset when nothing was recorded yet? (then the
+	// initial value never reaches the message)
+	r.Check(literal == "", "C12-g", "T.newParser:initial-failure-position", v.Name, v.Where(np.Pos()), "the initial farthest-failure position is computed, not a literal",
+		"maxFailPos starts as the literal "+literal+" and failAt replaces it only for a strictly greater offset: a failure at offset 0 is reported at line 1, column 1 although read() places a leading line break at line 2, column 0 (`S <- \"a\" \"b\"` on \"\\nb\" reports 1:1 (0), on \"a\\nb\" 2:0 (1))")
 }
